@@ -1,16 +1,16 @@
-\* conformance only: histories in which two memory databases were created in one clock tick (rows are lost, see UniqueStamp)
+\* conformance only: histories with a writer held between GetOrCreateMemoryDatabase and AcquireWrite (needs the proposed hook tsdb.VerifGate; rows are lost there, see AtomicWrite)
 CONSTANTS
   Leader = {1, 2}
   MaxRow = 60
   MaxObj = 6
   MaxDb = 60
   DoubleWindow = TRUE
-  CloseLocksFirst = TRUE
+  CloseLocksFirst = FALSE
   RetryFailed = FALSE
   ClosedRejects = FALSE
   AtomicWrite = FALSE
   AtomicEvict = FALSE
-  UniqueStamp = FALSE
+  UniqueStamp = TRUE
   EvictChecksRef = TRUE
   EvictChecksMem = TRUE
   CloseFlushes = TRUE
